@@ -985,20 +985,19 @@ func main() {
 			// mismatch of a behaviour carries it, so that it can be re-run alone (-tree path)
 			var history []json.RawMessage
 			run := func(i int) {
-				cc := &caseCtx{c: col, idx: treeJobs[i].idx, raw: treeJobs[i].raw, local: map[string]int{}, slot: sl,
-					tag: fmt.Sprintf("[k=%d]", cs[i].K)}
-				mat := col.treeMat
-				w.runTree(cc, cs[i], ts, *treeMode != "transitions", rng)
-				if col.treeMat != mat {
-					history = history[:0]
-				}
-				history = append(history, treeJobs[i].raw)
-				if *treeMode != "transitions" && len(cc.mm) > 0 {
-					b, _ := json.Marshal(map[string]interface{}{"op": "tree", "behaviour": history})
-					for x := range cc.mm {
-						cc.mm[x].Input = json.RawMessage(b)
+				raw := treeJobs[i].raw
+				if *treeMode != "transitions" {
+					if !(ts.valid && ts.abs == absOf(cs[i].Pre)) {
+						history = history[:0] // runTree will build the pre-state afresh
 					}
+					history = append(history, treeJobs[i].raw)
+					b, _ := json.Marshal(map[string]interface{}{"op": "tree", "behaviour": history})
+					raw = json.RawMessage(b)
 				}
+				cc := &caseCtx{c: col, idx: treeJobs[i].idx, raw: raw, local: map[string]int{}, slot: sl,
+					tag: fmt.Sprintf("[k=%d]", cs[i].K)}
+				w.runTree(cc, cs[i], ts, *treeMode != "transitions", rng)
+				cc.raw = treeJobs[i].raw // samples show the single step
 				col.merge(cc, cs[i], &nontrivialSamples)
 			}
 			for i := 0; i < len(cs); {
@@ -1100,8 +1099,8 @@ func (col *Collector) merge(cc *caseCtx, c *Case, nsamples *int) {
 	for _, m := range cc.mm {
 		col.total++
 		col.bySig[m.Signature]++
-		// keep the first example of every signature, and a second one while the report is small
-		if !shown[m.Signature] && (col.bySig[m.Signature] == 1 || col.bySig[m.Signature] <= 2 && len(col.rep.Mismatches) < col.maxShown) {
+		// keep the first example of every signature (all are counted in by_signature)
+		if !shown[m.Signature] && col.bySig[m.Signature] == 1 {
 			shown[m.Signature] = true
 			col.rep.Mismatches = append(col.rep.Mismatches, m)
 		}
